@@ -349,8 +349,12 @@ class TCPTransport(Transport):
         if isinstance(message, list) and self._onUtilityMessage(conn, message):
             return
 
-        # At this point, message should be either a node ID (i.e. address) or 'readonly'
-        node = self._nodeAddrToNode[message] if message in self._nodeAddrToNode else None
+        # At this point, message should be either a node ID (i.e. address) or 'readonly'.
+        # It comes from whoever connected: anything else (an unhashable value, a list that is not a known utility command) names nobody.
+        try:
+            node = self._nodeAddrToNode.get(message)
+        except TypeError:
+            node = None
 
         if node is None and message != 'readonly':
             conn.disconnect()
@@ -380,8 +384,14 @@ class TCPTransport(Transport):
             self._onReadonlyNodeConnected(node)
 
     def _onUtilityMessage(self, conn, message):
+        if not message:
+            return False
         command = message[0]
-        if command in self._onUtilityMessageCallbacks:
+        try:
+            known = command in self._onUtilityMessageCallbacks
+        except TypeError:
+            known = False
+        if known:
             message[0] = command.upper()
             callback = functools.partial(self._utilityCallback, conn = conn, args = message)
             try:
